@@ -12,11 +12,11 @@ def _attr_value(v):
     if isinstance(v, np.ndarray):
         return ["ndarray", v.tolist()]
     if isinstance(v, np.generic):
-        return v.item()
+        return ["np", type(v).__name__, v.item() if not isinstance(v, (np.datetime64, np.timedelta64)) else str(v)]
     if isinstance(v, dict):
         return {str(k): _attr_value(x) for k, x in v.items()}
     if isinstance(v, (list, tuple)):
-        return [_attr_value(x) for x in v]
+        return [type(v).__name__] + [_attr_value(x) for x in v]
     if isinstance(v, (str, int, float, bool)) or v is None:
         return v
     return repr(v)
